@@ -256,9 +256,18 @@ deriving Repr, Inhabited
 
 def Parts.text (p : Parts) : Str := unlines (p.header :: p.sep :: p.body)
 
-/-- `format_aggregate` for a non-empty table, up to `overlength_str`: the widths kept in the
-state afterwards and the parts -/
-def tableParts (env : Env) (widths : WMap) (t : Table) : Outcome (WMap × Parts) :=
+/-- the widths `format_aggregate` measures the table against: the remembered ones as long as,
+enlarged by the current rows, they still fit the terminal; otherwise none — the current table is
+measured on its own before anything is cut (the repair of printer.rs `format_aggregate`:
+`if !self.fits_within_term_agg() { self.column_widths = HashMap::new(); …absorb the rows again… }`,
+mirroring what `format_record_as_columns` does on overflow) -/
+def startWidths (env : Env) (widths : WMap) (rows : List Fields) : WMap :=
+  if fits env (absorbRows env.cfg widths rows) then widths else []
+
+/-- `format_aggregate` for a non-empty table from given starting widths, up to `overlength_str`:
+absorb the rows, cut to fair shares if that does not fit, lay out; the widths kept in the state
+afterwards and the parts -/
+def tablePartsFrom (env : Env) (widths : WMap) (t : Table) : Outcome (WMap × Parts) :=
   let w1 := absorbRows env.cfg widths t.rows
   match resize env w1 t.columns with
   | .ok w2 =>
@@ -280,6 +289,13 @@ def tableParts (env : Env) (widths : WMap) (t : Table) : Outcome (WMap × Parts)
   | .panic p => .panic p
   | .err k => .err k
   | .unmodelled u => .unmodelled u
+
+/-- `format_aggregate` for a non-empty table, up to `overlength_str`: the widths kept in the
+state afterwards and the parts.  The rows are absorbed into the remembered widths; if the result
+does not fit the terminal the memory is dropped and the rows are absorbed into an empty map
+(`startWidths`), and only then are the widths cut to fit. -/
+def tableParts (env : Env) (widths : WMap) (t : Table) : Outcome (WMap × Parts) :=
+  tablePartsFrom env (startWidths env widths t.rows) t
 
 /-- `PrettyPrinter::format_aggregate` (printer.rs:447-481): the text and the new state -/
 def formatAggregate (env : Env) (st : St) (t : Table) : Outcome (Str × St) :=
